@@ -956,6 +956,8 @@ int main(int argc, char **argv)
 
 		if (strcmp(t[0], "begin") == 0) {
 			reset_all();
+			rm_rf(scratch);		/* every behaviour starts from an empty scratch tree */
+			mkdir(scratch, 0755);
 			snprintf(cur_id, sizeof cur_id, "%s", ARG(1));
 			cmd_index = 0;
 			alarm(nt > 2 ? atoi(t[2]) : 20);
